@@ -1371,6 +1371,9 @@ class OperatorComp(Operator):
         """Implement ``self(x[, out])``."""
         if out is None:
             return self.left(self.right(x))
+        elif self.right.is_functional:
+            # `out` cannot be used for the scalar result of a functional
+            return self.left(self.right(x), out=out)
         else:
             tmp = (self.__tmp if self.__tmp is not None
                    else self.right.range.element())
